@@ -274,6 +274,30 @@ var RenamePairs = []struct{ ID, A, B string }{
 	}
 	return g(fs, v)
 }`},
+	// channel PARAMETERS of a select, renamed so that their lexical order changes
+	{"select-on-channel-parameters", `func Mux(a, b, quit chan int, out chan<- int) int {
+	select {
+	case v := <-a:
+		return v
+	case v := <-b:
+		return v + 1
+	case out <- 7:
+		return 2
+	case <-quit:
+		return 0
+	}
+}`, `func Mux(work, ack, done chan int, sink chan<- int) int {
+	select {
+	case v := <-work:
+		return v
+	case v := <-ack:
+		return v + 1
+	case sink <- 7:
+		return 2
+	case <-done:
+		return 0
+	}
+}`},
 	// the name of a type parameter
 	{"type-parameter-name", `func Fold[T any](s []T, f func(acc int, v T) int) int {
 	g := func(t T, n int) int { return f(n, t) }
